@@ -162,6 +162,8 @@ def generate(rng, tier, idx):
           'user_home': rng.choice(['empty', 'signer-ultimate', 'others']),
           'fault': rng.choice([None] * 8 + ['exit1', 'exit2', 'kill', 'term', 'nooutput', 'garbage', 'nostatus', 'trunc:40',
                                            'trunc:150', 'stderr-nonutf', 'missing'])}
+    if rng.random() < 0.25:
+        sc['proxy'] = 'http://127.0.0.1:9'      # an HTTP proxy configured for key refreshes (never contacted: no refresh is made)
     if key.startswith('subkey'):
         sc['api'] = 'lib'      # the repository's signed sample names files we do not have
         sc['trust'] = None
@@ -427,7 +429,7 @@ def exec_real(sc):
         try:
             with GS.RealPeer(faketime=sc.get('peer_time'), fault=None if fault == 'missing' else fault):
                 if api == 'lib':
-                    env = IsolatedGPGEnvironment()
+                    env = IsolatedGPGEnvironment(proxy=sc.get('proxy'))
                     try:
                         if keyblob is not None:
                             env.import_key(io.BytesIO(keyblob), trust=(sc.get('trust') is None))
@@ -507,6 +509,8 @@ def exec_real(sc):
                         argv += ['-s']
                     if 'P' in api:
                         argv += ['-P']
+                    if sc.get('proxy'):
+                        argv += ['--proxy', sc['proxy']]
                     argv.append(root)
                     peer2 = GS.RealPeer(faketime=sc.get('peer_time'), fault=fault, missing=(fault == 'missing'))
                     with peer2:
